@@ -432,6 +432,7 @@ static void fill_payload(char *p, int len, int nlpos)
     for (int i = 0; i < len; i++) p[i] = (char) ('A' + (i * 7 + i / 4096) % 26);
     if (len > 0) { p[0] = 'x'; p[len - 1] = 'y'; }      /* non-blank ends so trim is the identity on the full text */
     if (nlpos >= 0 && nlpos < len) p[nlpos] = '\n';
+    if (nlpos >= 1 && nlpos < len) p[nlpos - 1] = '\r';      /* the character before the newline is a carriage return: a character of the line like any other */
     p[len] = 0;
 }
 static void sc_run(void *ctx)
